@@ -1,6 +1,410 @@
 package main
 
-// runHarness: see replay harnesses (bounded run-time assertion checking on the real code). Filled in below.
+import (
+	"encoding/json"
+	"fmt"
+	"go/types"
+	"os"
+	"os/exec"
+	"path/filepath"
+	"regexp"
+	"strconv"
+	"strings"
+	"time"
+
+	"golang.org/x/tools/go/ssa"
+)
+
+// Replay of a candidate counterexample on the real code.
+//
+// Scope: the function under verification is a package-level function or a method with a pointer receiver to a struct,
+// and every other parameter is a []byte, a string, a bool or an integer. The solver is asked (quantified assertions
+// dropped) for a model of the negated obligation; the parameter values are read out of it; an in-package Go test that
+// calls the real function with those values is injected with `go test -overlay` (nothing is written into /repo).
+//   - safety obligations (index, slice, nil, division, type assertion, explicit panic): confirmed iff the call panics;
+//   - postconditions: confirmed iff the clause, translated to Go (it may use the specification functions, which are
+//     real Go functions in the hook files), evaluates to false after the call.
+// Anything outside this scope, or a model that does not reproduce (candidate models ignore the quantified axioms),
+// leaves the violation reported with "no-failing-input-found".
+
+const replayMaxBytes = 512
+
+var safetyKinds = map[string]bool{"bounds": true, "slice": true, "nil-deref": true, "nil-invoke": true, "div0": true, "explicit-panic": true, "type-assert": true, "nil-map-write": true, "close-nil": true, "make": true, "shift": true}
+
 func (eng *Engine) runHarness(id string, cfg *PropConfig, v *violation, model string) (bool, string) {
-	return false, ""
+	r := v.res
+	if r == nil || r.gen == nil || r.gen.top == nil || r.Obl == nil {
+		return false, ""
+	}
+	if !eng.replayBudget {
+		return false, "replay: not attempted (only the first five violations of a run are replayed on the real code)"
+	}
+	g := r.gen
+	fn := g.top
+	if fn.Pkg == nil || fn.Synthetic != "" || fn.Parent() != nil || !eng.inRepo(fn) {
+		return false, ""
+	}
+	isSafety := safetyKinds[r.Obl.kind]
+	isPost := r.Obl.kind == "post"
+	if !isSafety && !isPost {
+		return false, "replay: obligation kind " + r.Obl.kind + " has no run-time counterpart (not replayed)"
+	}
+	// parameters
+	type par struct {
+		name, kind string // kind: bytes | string | int | bool | recv
+		typ        types.Type
+	}
+	var pars []par
+	for i, p := range fn.Params {
+		t := p.Type()
+		if i == 0 && fn.Signature.Recv() != nil {
+			pt, ok := t.Underlying().(*types.Pointer)
+			if !ok {
+				return false, "replay: receiver is not a pointer (not replayed)"
+			}
+			if _, ok := pt.Elem().Underlying().(*types.Struct); !ok {
+				if _, isSl := pt.Elem().Underlying().(*types.Slice); !isSl {
+					return false, "replay: receiver type not supported (not replayed)"
+				}
+			}
+			pars = append(pars, par{p.Name(), "recv", t})
+			continue
+		}
+		switch u := t.Underlying().(type) {
+		case *types.Slice:
+			if b, ok := u.Elem().Underlying().(*types.Basic); ok && b.Kind() == types.Uint8 {
+				pars = append(pars, par{p.Name(), "bytes", t})
+				continue
+			}
+		case *types.Basic:
+			switch {
+			case u.Info()&types.IsString != 0:
+				pars = append(pars, par{p.Name(), "string", t})
+				continue
+			case u.Info()&types.IsBoolean != 0:
+				pars = append(pars, par{p.Name(), "bool", t})
+				continue
+			case u.Info()&types.IsInteger != 0:
+				pars = append(pars, par{p.Name(), "int", t})
+				continue
+			}
+		}
+		return false, fmt.Sprintf("replay: parameter %s of type %s is outside the replayable types (not replayed)", p.Name(), t)
+	}
+	// ask for the values
+	var terms []string
+	for _, p := range pars {
+		n := g.paramTerms[p.name]
+		if n == "" {
+			return false, ""
+		}
+		switch p.kind {
+		case "bytes":
+			terms = append(terms, fmt.Sprintf("(sllen %s)", n), fmt.Sprintf("(sref %s)", n))
+			for i := 0; i < replayMaxBytes; i++ {
+				terms = append(terms, fmt.Sprintf("(select (select %s (sref %s)) (+ (soff %s) %d))", g.entry.H["I"], n, n, i))
+			}
+		case "string":
+			terms = append(terms, fmt.Sprintf("(slen %s)", n))
+			for i := 0; i < replayMaxBytes; i++ {
+				terms = append(terms, fmt.Sprintf("(sat %s %d)", n, i))
+			}
+		case "int", "bool":
+			terms = append(terms, n)
+		}
+	}
+	// small inputs first: candidate models are easier to read and to replay
+	var vals []string
+	why := ""
+	for _, bound := range []int{24, replayMaxBytes, 0} {
+		var extra []string
+		if bound > 0 {
+			for _, p := range pars {
+				n := g.paramTerms[p.name]
+				switch p.kind {
+				case "bytes":
+					extra = append(extra, fmt.Sprintf("(assert (<= (sllen %s) %d))", n, bound))
+				case "string":
+					extra = append(extra, fmt.Sprintf("(assert (<= (slen %s) %d))", n, bound))
+				}
+			}
+		}
+		vals, why = eng.modelValues(g, r, terms, extra)
+		if vals != nil {
+			break
+		}
+	}
+	if vals == nil {
+		return false, "replay: " + why
+	}
+	// Go literals
+	k := 0
+	next := func() string { s := vals[k]; k++; return s }
+	var decl, callArgs []string
+	recvExpr := ""
+	for _, p := range pars {
+		switch p.kind {
+		case "recv":
+			et := p.typ.Underlying().(*types.Pointer).Elem()
+			decl = append(decl, fmt.Sprintf("\tvar recv0 %s", types.TypeString(et, func(pk *types.Package) string {
+				if pk == fn.Pkg.Pkg {
+					return ""
+				}
+				return pk.Name()
+			})))
+			recvExpr = "(&recv0)"
+		case "bytes", "string":
+			var n int
+			if p.kind == "bytes" {
+				n = atoiSMT(next())
+				ref := atoiSMT(next())
+				if ref == 0 {
+					n = -1 // nil slice
+				}
+			} else {
+				n = atoiSMT(next())
+			}
+			var bs []string
+			for i := 0; i < replayMaxBytes; i++ {
+				b := atoiSMT(next())
+				if i < n {
+					bs = append(bs, strconv.Itoa(((b%256)+256)%256))
+				}
+			}
+			if n > replayMaxBytes {
+				return false, fmt.Sprintf("replay: the candidate model needs a %d-byte %s (limit %d): not replayed", n, p.name, replayMaxBytes)
+			}
+			lit := "[]byte{" + strings.Join(bs, ", ") + "}"
+			if n < 0 {
+				lit = "[]byte(nil)"
+			}
+			if p.kind == "string" {
+				lit = "string(" + lit + ")"
+			}
+			decl = append(decl, fmt.Sprintf("\t%s := %s", "arg_"+p.name, lit))
+			callArgs = append(callArgs, "arg_"+p.name)
+		case "int":
+			decl = append(decl, fmt.Sprintf("\tvar arg_%s %s = %s(%d)", p.name, goTypeName(p.typ, fn), goTypeName(p.typ, fn), atoiSMT(next())))
+			callArgs = append(callArgs, "arg_"+p.name)
+		case "bool":
+			decl = append(decl, fmt.Sprintf("\targ_%s := %s", p.name, next()))
+			callArgs = append(callArgs, "arg_"+p.name)
+		}
+	}
+	call := fn.Name() + "(" + strings.Join(callArgs, ", ") + ")"
+	if recvExpr != "" {
+		call = recvExpr + "." + call
+	}
+	nres := fn.Signature.Results().Len()
+	var lhs []string
+	for i := 0; i < nres; i++ {
+		lhs = append(lhs, fmt.Sprintf("res%d", i))
+	}
+	assign := ""
+	if nres > 0 {
+		assign = strings.Join(lhs, ", ") + " := "
+	}
+	check := "\tt.Log(\"REPLAY-NO-PANIC\")\n"
+	usesRes := ""
+	for _, l := range lhs {
+		usesRes += "\t_ = " + l + "\n"
+	}
+	if isPost {
+		goExpr, ok := eng.postToGo(r.Obl.text, fn, g)
+		if !ok {
+			return false, "replay: the postcondition uses contract-only constructs (quantifier, heap predicate, old): not translated to Go, not replayed"
+		}
+		check = fmt.Sprintf("\tif !(%s) {\n\t\tt.Fatalf(\"REPLAY-POST-FALSE: %%s\", %q)\n\t}\n\tt.Log(\"REPLAY-POST-HOLDS\")\n", goExpr, r.Obl.text)
+	}
+	src := fmt.Sprintf("//go:build verif\n\npackage %s\n\nimport \"testing\"\n\nfunc TestVerifReplay(t *testing.T) {\n%s\n\tdefer func() {\n\t\tif r := recover(); r != nil {\n\t\t\tt.Fatalf(\"REPLAY-PANIC: %%v\", r)\n\t\t}\n\t}()\n\t%s%s\n%s%s}\n",
+		fn.Pkg.Pkg.Name(), strings.Join(decl, "\n"), assign, call, usesRes, check)
+	// overlay
+	pkgDir := filepath.Dir(eng.prog.Fset.Position(fn.Pos()).Filename)
+	tmp, err := os.MkdirTemp("", "verif-replay-")
+	if err != nil {
+		return false, ""
+	}
+	defer os.RemoveAll(tmp)
+	testFile := filepath.Join(tmp, "zz_verif_replay_test.go")
+	os.WriteFile(testFile, []byte(src), 0o644)
+	ov := map[string]map[string]string{"Replace": {filepath.Join(pkgDir, "zz_verif_replay_test.go"): testFile}}
+	ob, _ := json.Marshal(ov)
+	ovFile := filepath.Join(tmp, "ov.json")
+	os.WriteFile(ovFile, ob, 0o644)
+	rel, _ := filepath.Rel(eng.repoDir, pkgDir)
+	cmd := exec.Command("go", "test", "-tags", "verif", "-overlay", ovFile, "-vet=off", "-count=1", "-timeout", "60s", "-run", "^TestVerifReplay$", "./"+rel+"/")
+	cmd.Dir = eng.repoDir
+	cmd.Env = append(os.Environ(), "GOFLAGS=-mod=mod", "GOPROXY=off", "GOSUMDB=off", "GOTOOLCHAIN=local")
+	done := make(chan struct{})
+	var outB []byte
+	go func() { outB, _ = cmd.CombinedOutput(); close(done) }()
+	select {
+	case <-done:
+	case <-time.After(120 * time.Second):
+		if cmd.Process != nil {
+			cmd.Process.Kill()
+		}
+		return false, "replay: the test run did not finish in 120 s"
+	}
+	out := string(outB)
+	short := out
+	if len(short) > 1500 {
+		short = short[:1500] + "\n..."
+	}
+	report := "generated test (injected with go test -overlay, package " + fn.Pkg.Pkg.Path() + "):\n" + src + "\noutput:\n" + short
+	switch {
+	case isSafety && strings.Contains(out, "REPLAY-PANIC"):
+		return true, "CONFIRMED: the real code panics on the candidate input\n" + report
+	case isPost && strings.Contains(out, "REPLAY-POST-FALSE"):
+		return true, "CONFIRMED: the postcondition is false on the real code for the candidate input\n" + report
+	case isPost && strings.Contains(out, "REPLAY-PANIC"):
+		return true, "CONFIRMED: the real code panics on the candidate input (while checking a postcondition)\n" + report
+	}
+	return false, "not reproduced (candidate models ignore quantified axioms, so this does not clear the obligation)\n" + report
+}
+
+func atoiSMT(s string) int {
+	s = strings.TrimSpace(s)
+	neg := false
+	if strings.HasPrefix(s, "(-") {
+		neg = true
+		s = strings.TrimSuffix(strings.TrimSpace(s[2:]), ")")
+	}
+	n, err := strconv.Atoi(strings.TrimSpace(s))
+	if err != nil {
+		return 0
+	}
+	if neg {
+		return -n
+	}
+	return n
+}
+
+func goTypeName(t types.Type, fn *ssa.Function) string {
+	return types.TypeString(t, func(pk *types.Package) string {
+		if pk == fn.Pkg.Pkg {
+			return ""
+		}
+		return pk.Name()
+	})
+}
+
+// modelValues: values of the given terms in a model of the negated obligation with the quantified assertions dropped
+func (eng *Engine) modelValues(g *Gen, r *OblResult, terms []string, extra []string) ([]string, string) {
+	q := dropQuantified(g.buildQuery(r.Obl, "", true, true))
+	q = strings.Replace(q, "(get-model)\n", "", 1)
+	if len(extra) > 0 {
+		q = strings.Replace(q, "(check-sat)", strings.Join(extra, "\n")+"\n(check-sat)", 1)
+	}
+	var sb strings.Builder
+	sb.WriteString(q)
+	for _, t := range terms {
+		sb.WriteString("(get-value (" + t + "))\n")
+	}
+	f := filepath.Join(r.dir, fmt.Sprintf("o%04d.values.smt2", r.idx))
+	os.WriteFile(f, []byte(sb.String()), 0o644)
+	ans, out, _ := runSolver(solvers[0], f, 20*time.Second)
+	if ans != "sat" {
+		return nil, "no candidate model (the solver answered " + ans + " with the quantified assertions dropped)"
+	}
+	// one line per get-value: ((term value))
+	var vals []string
+	lines := strings.Split(out, "\n")
+	re := regexp.MustCompile(`^\(\(.*\s(\(- \d+\)|-?\d+|true|false)\)\)$`)
+	for _, l := range lines {
+		l = strings.TrimSpace(l)
+		if m := re.FindStringSubmatch(l); m != nil {
+			vals = append(vals, m[1])
+		}
+	}
+	if len(vals) != len(terms) {
+		return nil, fmt.Sprintf("could not read the candidate values (%d of %d)", len(vals), len(terms))
+	}
+	return vals, ""
+}
+
+var goOnlyRe = regexp.MustCompile(`\b(forall|exists|fresh|allocated|exact|ref|off|typeIs|sameSlice|unchanged|has|mapdom|mapval|mapview|seen|seq|old|rangeval|rangeindex|cap)\b|\$`)
+var identRe = regexp.MustCompile(`[A-Za-z_][A-Za-z0-9_.]*`)
+
+// postToGo translates "ensures <clause>" into a Go boolean expression over arg_*/res*/recv0, when the clause stays in
+// the common subset of the contract language and Go (plus ==>, ite, lets that are themselves in that subset).
+func (eng *Engine) postToGo(text string, fn *ssa.Function, g *Gen) (string, bool) {
+	cl := strings.TrimSpace(strings.TrimPrefix(text, "ensures"))
+	if goOnlyRe.MatchString(cl) || strings.Contains(cl, "<==>") {
+		return "", false
+	}
+	ct := eng.contractFor(fn)
+	lets := map[string]string{}
+	if ct != nil {
+		for _, l := range ct.Lets {
+			if goOnlyRe.MatchString(l.Text) {
+				lets[l.Label] = ""
+				continue
+			}
+			lets[l.Label] = l.Text
+		}
+	}
+	names := map[string]string{}
+	recvName := ""
+	for i, p := range fn.Params {
+		if i == 0 && fn.Signature.Recv() != nil {
+			recvName = p.Name()
+			names[p.Name()] = "(&recv0)"
+			continue
+		}
+		names[p.Name()] = "arg_" + p.Name()
+	}
+	_ = recvName
+	res := fn.Signature.Results()
+	for i := 0; i < res.Len(); i++ {
+		names[fmt.Sprintf("result%d", i)] = fmt.Sprintf("res%d", i)
+		if res.At(i).Name() != "" {
+			names[res.At(i).Name()] = fmt.Sprintf("res%d", i)
+		}
+	}
+	if res.Len() >= 1 {
+		names["result"] = "res0"
+		if isErrorType(res.At(res.Len() - 1).Type()) {
+			names["err"] = fmt.Sprintf("res%d", res.Len()-1)
+		}
+	}
+	bad := false
+	var subst func(s string, depth int) string
+	subst = func(s string, depth int) string {
+		return identRe.ReplaceAllStringFunc(s, func(id string) string {
+			head := id
+			rest := ""
+			if i := strings.Index(id, "."); i >= 0 {
+				head, rest = id[:i], id[i:]
+			}
+			if v, ok := lets[head]; ok {
+				if v == "" || depth > 3 {
+					bad = true
+					return id
+				}
+				return "(" + subst(v, depth+1) + ")" + rest
+			}
+			if v, ok := names[head]; ok {
+				return v + rest
+			}
+			return id
+		})
+	}
+	out := subst(cl, 0)
+	if bad {
+		return "", false
+	}
+	// a ==> b  (right associative, top level only) and ite(c, a, b)
+	if strings.Contains(out, "ite(") {
+		return "", false
+	}
+	parts := splitTop(out, "==>")
+	expr := strings.TrimSpace(parts[len(parts)-1])
+	for i := len(parts) - 2; i >= 0; i-- {
+		expr = fmt.Sprintf("(!(%s) || (%s))", strings.TrimSpace(parts[i]), expr)
+	}
+	if strings.Contains(expr, "==>") {
+		return "", false
+	}
+	return expr, true
 }
